@@ -159,7 +159,7 @@ REGEX_SPECS = [
      r"msg\.MoveName\(fn, _defaultMessageRouteMessage\)", "flag"),
     ("c05_pass_returns_session_depth", "reflector/StorageReflectSession.cpp",
      r"PassMessageCallbackAux\(DataNode & node[^{]*\{(?:[^}]|\}(?!\s*\n\s*int\b))*?return NODE_DEPTH_SESSIONNAME;\s*// This causes the traversal to immediately skip to the next session", "flag"),
-    # (F39) the comma-list loop of DoTraversalAux drops the escape characters although DoDirectChildLookup unescapes the key again
+    # (F52) the comma-list loop of DoTraversalAux drops the escape characters although DoDirectChildLookup unescapes the key again
     ("c05_uvkeys_as_found", "reflector/StorageReflectSession.cpp",
      r"scratchStr\.Clear\(\);\s*\}\s*\}\s*prevCharWasEscape = curCharIsEscape;", "flag"),
     ("c05_default_flags_gw_and_nb", "reflector/DumbReflectSession.cpp",
